@@ -1,4 +1,7 @@
 import Jose.Jwk
+import Jose.Jws
+import Jose.Jwe
+import Jose.Exc
 import Jose.Lemmas.Json
 /-
   C05 — key restrictions: declared alg, use and key_ops.
@@ -69,6 +72,48 @@ theorem listed_only_strings (l : List Json) (op : String) :
 example : prm (some (.obj [("use", .str "sig"), ("key_ops", .arr [.str "verify", .int 7])])) false (some "decrypt") = false ∧
     prm (some (.obj [("key_ops", .arr [.str "verify", .int 7])])) false (some "sign") = false ∧
     prm (some (.obj [("key_ops", .arr [.str "verify", .int 7])])) false (some "verify") = true := by
+  decide
+
+/-! ### Part 2 — a declared algorithm is refused for any other, at every entry point,
+regardless of how the two names compare -/
+
+/-- verifying (jose_jws_ver_io) -/
+theorem ver_mismatch (h k : String) (hne : h ≠ k) : Jws.verSelect (some h) (some k) = none := by
+  simp [Jws.verSelect, hne]
+
+/-- signing (find_alg of lib/jws.c) -/
+theorem sig_mismatch (h k : String) (hne : k ≠ h) : Jws.keyAlgOk (some k) h = false := by
+  simp [Jws.keyAlgOk, hne]
+
+/-- unwrapping (jose_jwe_dec_jwk): refused when neither the header's alg nor its enc equals the key's alg -/
+theorem unwrap_mismatch (h k : String) (henc : Option String) (h1 : h ≠ k) (h2 : henc ≠ some k) :
+    Jwe.decJwkSelect (some h) henc (some k) = none := by
+  simp [Jwe.decJwkSelect, h1, h2]
+
+theorem unwrap_match (h k : String) (henc : Option String) (hm : h = k ∨ henc = some k) :
+    Jwe.decJwkSelect (some h) henc (some k) = some h := by
+  rcases hm with hm | hm <;> simp [Jwe.decJwkSelect, hm]
+
+/-- key exchange (jose_jwk_exc) -/
+theorem exc_mismatch (a b : String) (s : Option String) (hne : a ≠ b) : Exc.excSelect (some a) (some b) s = none := by
+  simp [Exc.excSelect, hne]
+
+/-- content encryption (jose_jwe_enc_cek_io): a CEK declaring another algorithm than the header's is refused -/
+theorem enc_cek_mismatch (kvs p : List (String × Json)) (cek : Json) (h k : String) (hne : k ≠ h)
+    (hp : lookup "protected" kvs = some (.obj p)) (he : lookup "enc" p = some (.str h))
+    (hu : lookup "unprotected" kvs = none) (hk : Jws.optStr cek "alg" = some (some k)) :
+    Jwe.encCekSetup (.obj kvs) cek = none := by
+  simp only [Jwe.encCekSetup, hp, hu, hk]
+  simp [Jws.optStr, he, hne]
+
+/-- every registered algorithm demands the documented operation of the key (table facts,
+    re-proved on the regenerated registry) -/
+theorem entry_point_operations :
+    (∀ a ∈ Jws.signAlgs, a.p1 = some "sign" ∧ a.p2 = some "verify") ∧
+    (∀ a ∈ Jwe.encrAlgs, a.p1 = some "encrypt" ∧ a.p2 = some "decrypt") ∧
+    (∀ a ∈ Jwe.wrapAlgs, (a.name = "dir" → a.p1 = some "encrypt" ∧ a.p2 = some "decrypt") ∧
+                         (a.name ≠ "dir" → a.p1 = some "wrapKey" ∧ a.p2 = some "unwrapKey")) ∧
+    (∀ a ∈ Exc.exchAlgs, a.p1 = some "deriveKey") := by
   decide
 
 end Jose.Props.C05
